@@ -34,12 +34,15 @@ def build_template(ctx):
     c = chkgen.random_chk_spec(rng, nlev=2, nspec=3, ng=1)
     chkgen.materialize(c, os.path.join(root, "chk00005"))
     shutil.copytree(os.path.join(root, "chk00005"), os.path.join(root, "restart7"))
+    # a checkpoint whose own name holds no "chk" while a directory above it does
+    os.makedirs(os.path.join(root, "chk_runs"))
+    shutil.copytree(os.path.join(root, "chk00005"), os.path.join(root, "chk_runs", "sim00100"))
     with open(os.path.join(root, "rec.py"), "w") as f:
         f.write(tools.USER_RECIPE)
     return root
 
 
-INPUTS = ["plt00010", "plt00020", "plt00040", "plt2d00030", "chk00005", "restart7"]
+INPUTS = ["plt00010", "plt00020", "plt00040", "plt2d00030", "chk00005", "restart7", "chk_runs/sim00100"]
 
 
 def form_path(root, name, form):
@@ -86,6 +89,8 @@ def invocations():
                 "chk00005", ["explicit-rel", "default"]))
     inv.append(("chk2plt-noname", lambda r, f, o: tools.chk2plt(P(r, "restart7", f), O(r, o, "out_plt")),
                 "restart7", ["default"]))
+    inv.append(("chk2plt-parentchk", lambda r, f, o: tools.chk2plt(P(r, "chk_runs/sim00100", f), O(r, o, "out_plt")),
+                "chk_runs/sim00100", ["default"]))
     inv.append(("marinate", lambda r, f, o: tools.marinate(P(r, "plt00010", f)), "plt00010", ["default"]))
     inv.append(("taste", lambda r, f, o: tools.taste(P(r, "plt00010", f), boxes_coordinates=True), "plt00010", ["none"]))
     inv.append(("pestle", lambda r, f, o: tools.pestle(P(r, "plt00010", f), "density", None, True), "plt00010", ["none"]))
@@ -111,6 +116,12 @@ def _truncate(root, d, prefix, cut, level="Level_0", which=0):
 # (name, preparation outside the audited run, invocation)
 FAILING = [
     ("mandoline-unknown-field", None, lambda r: tools.mandoline("plt00010", "array", "out_x", ["no_such_field"], 0)),
+    # unknown names that contain the keyword "all", given as a bare string / a list / through the console script
+    ("mandoline-unknown-field-wall", None, lambda r: tools.mandoline("plt00010", "array", "out_x", "wall_temp", 0)),
+    ("mandoline-unknown-field-overall", None, lambda r: tools.mandoline("plt00010", "plotfile", "out_x", "overall_density", 1)),
+    ("mandoline-unknown-field-list", None, lambda r: tools.mandoline("plt00010", "array", "out_x", ["small_scales"], 2)),
+    ("mandoline-cli-unknown-field", None, lambda r: tools.mandoline_cli("plt00010", "array", "out_x", ["wall_temp"], 0)),
+    ("colander-cli-limit-above", None, lambda r: tools.colander_cli("plt00010", "out_col", ["temp"], 7)),
     ("pestle-unknown-field", None, lambda r: tools.pestle("plt00010", "no_such_field")),
     ("whip-unknown-field", None, lambda r: tools.whip("plt00010", "no_such_field", "out_g")),
     ("chef-unknown-recipe", None, lambda r: tools.chef("plt00010", "NOPE", "out_ck")),
@@ -201,7 +212,8 @@ def allowed_roots(root, tool, out_kind, inp_name):
     if base == "combine":
         return [os.path.join(root, "plt00010plt00040" if "bybox" in tool else "plt00010plt00020")]
     if base == "chk2plt":
-        return [os.path.join(root, inp_name.replace("chk", "plt") if "chk" in inp_name else inp_name + "_plt")]
+        d, b = os.path.split(inp_name)
+        return [os.path.join(root, d, b.replace("chk", "plt") if "chk" in b else b + "_plt")]
     if base == "mandoline":
         return [os.path.join(root, "S")]          # S<normal><pos><field>_<number> beside the input
     if base == "whip":
@@ -213,7 +225,7 @@ def model_default(rep, case, root, template, tool, form, inp_name):
     """where the tool wrote vs. the Lean model of its default output path"""
     from .. import leanio
     base = tool.split("-")[0]
-    if base not in ("chef", "marinate", "chk2plt", "combine", "mandoline"):
+    if base not in ("chef", "marinate", "chk2plt", "combine", "mandoline") or "parentchk" in tool:
         return
     new = sorted(set(os.listdir(root)) - set(os.listdir(template)))
     if len(new) != 1:
